@@ -24,6 +24,11 @@ def make_scenarios(rng, tier):
         for ri in ([-1, 0] if tier == "quick" else [-1, 0] + [rng.randrange(mx) for _ in range(6)]):
             scs.append(waiter_scenario(sid, mn, mx, rng, release_index=ri))
             sid += 1
+    # a waiter while a running rule UPDATES the pool (incremental, full, removal): neither may wait for the other
+    for (mn, mx) in [(1, 2), (2, 3)]:
+        for kind in ("incr", "update", "remove"):
+            scs.append(waiter_update_scenario(sid, mn, mx, rng, kind=kind))
+            sid += 1
     # pools made almost entirely of additional instances: their list is the contended one
     for (mn, mx) in [(1, 8), (1, 6)]:
         for _ in range(1 if tier == "quick" else 4):
@@ -60,7 +65,7 @@ def make_scenarios(rng, tier):
 
 RULE = ("scenario = pool (min,max) in {(1,2),(2,3),(3,8)} (thorough adds (1,5),(4,6)); per round: max requests, through wrapper methods drawn from all 24, each held at a gate inside its first rule; 0-2 further requests that must wait; "
         "a snapshot (free lists, per-instance data-context keys, by reflection) while max requests are inside rules; release in random order; snapshot at quiescence; second round proves the pool still serves max simultaneous requests; "
-        "half of the scenarios use rule sets whose rules fail or panic; plus storms of 600 (thorough 900) short unheld requests (one per pool size, two on (3,8), one each on (1,8) and (1,6) pools whose instances are nearly all additional ones; thorough four of each) each followed by max simultaneous held ones; plus bursts (1,500 rounds, thorough 12,000, on three pool sizes: max requests held inside a rule until all are there, then released at the same instant, so that instances are handed back simultaneously; nothing recorded, conservation checked afterwards); plus requests that panic inside the pooled call (a nil stop tag) followed by max held ones; plus waiter scenarios (max held requests, one more that must wait, ONE instance handed back — an additional one or an initial one — after which the waiter must run to completion while the others stay held); plus random walks over pool states (start a held request / release a random held one / run a request to completion, a snapshot after every action, then max simultaneous requests again) so that instances are handed back before and while others are taken; checked inside Coq: conservation (free ++ additional ++ in use = 0..max-1), no shared instance, at most max simultaneous executions (from the global event order), waiters finish; "
+        "half of the scenarios use rule sets whose rules fail or panic; plus storms of 600 (thorough 900) short unheld requests (one per pool size, two on (3,8), one each on (1,8) and (1,6) pools whose instances are nearly all additional ones; thorough four of each) each followed by max simultaneous held ones; plus bursts (1,500 rounds, thorough 12,000, on three pool sizes: max requests held inside a rule until all are there, then released at the same instant, so that instances are handed back simultaneously; nothing recorded, conservation checked afterwards); plus requests that panic inside the pooled call (a nil stop tag) followed by max held ones; plus waiter scenarios (max held requests, one more that must wait, ONE instance handed back — an additional one or an initial one — after which the waiter must run to completion while the others stay held; six more in which the released request first updates the pool — incremental, full, removal — from inside its rule while the waiter waits); plus random walks over pool states (start a held request / release a random held one / run a request to completion, a snapshot after every action, then max simultaneous requests again) so that instances are handed back before and while others are taken; checked inside Coq: conservation (free ++ additional ++ in use = 0..max-1), no shared instance, at most max simultaneous executions (from the global event order), waiters finish; "
         "distinct non-trivial = snapshots taken while at least two requests were simultaneously inside a rule")
 
 
